@@ -33,7 +33,7 @@ CHECKS = {
             'DESIGN.md sec. 6 C06'),
     'C07': ('invariant checking over generated histories with query-then-call steps; overflow clause by monotonicity / growth extrapolation; ' + PBT,
             'Exploration: histories whose steps ask the matching max_* query on the live converter and call with exactly that capacity, in every pending state reachable by atoms / cuts / BOM prefixes; plus the queries at ~70 lengths around usize::MAX/{1..8} in every such state.',
-            'Destination = max(query, documented minimum). The if_no_unmappables precondition is decided by the reference encoder model.',
+            'Destination = exactly the queried value. The if_no_unmappables precondition is decided by the reference encoder model.',
             'DESIGN.md sec. 6 C07'),
     'C08': ('invariant checking (progress, linear call bound) over generated histories in the minimal-capacity regime; ' + PBT,
             'Exploration: the C02/C04 history space restricted to capacities minimum..minimum+3 for decoders and encoders, all cut sets / sinks / modes; every non-final call must make progress and the loop must end within 4*units+16 calls (hard cap turns a hang into a violation).',
